@@ -50,22 +50,32 @@ func TestC03Reentrancy(t *testing.T) {
 				}
 				done := make(chan string, 1)
 				go func() { done <- scenario(site, call, opt) }()
-				select {
-				case msg := <-done:
-					if msg != "" {
-						run.Violation("reentrancy:wrong-result:"+sig, msg, map[string]any{"scenario": sig})
+				finished := false
+				for waited := 0; !finished; waited++ {
+					select {
+					case msg := <-done:
+						if msg != "" {
+							run.Violation("reentrancy:wrong-result:"+sig, msg, map[string]any{"scenario": sig})
+						}
+						run.Case(sig, call != "has" && call != "count")
+						finished = true
+					case <-time.After(20 * time.Second):
+						buf := make([]byte, 1<<20)
+						d1 := string(buf[:runtime.Stack(buf, true)])
+						time.Sleep(time.Second)
+						d2 := string(buf[:runtime.Stack(buf, true)])
+						if watchdog.BlockedUnderEbu(d1) && watchdog.BlockedUnderEbu(d2) {
+							run.Violation("reentrancy:deadlock:"+sig, "re-entrant call from "+site+" ("+call+", handler option "+opt+") never returned; goroutines are parked below ebu frames", map[string]any{"scenario": sig, "dump": d2[:min(len(d2), 20000)]})
+							run.Finish()
+							t.Fatalf("hang in %s", sig)
+						}
+						// not a lock cycle by the dump rule: a slow machine; keep waiting (bounded)
+						run.Count("watchdog_slow_windows", 1)
+						if waited >= 30 {
+							run.Inconclusive("re-entrancy scenario did not finish within 10 minutes without a lock cycle in the dumps: " + sig)
+							finished = true
+						}
 					}
-					run.Case(sig, call != "has" && call != "count")
-				case <-time.After(20 * time.Second):
-					buf := make([]byte, 1<<20)
-					d := string(buf[:runtime.Stack(buf, true)])
-					if watchdog.BlockedUnderEbu(d) {
-						run.Violation("reentrancy:deadlock:"+sig, "re-entrant call from "+site+" ("+call+", handler option "+opt+") never returned; goroutines are parked below ebu frames", map[string]any{"scenario": sig, "dump": d[:min(len(d), 20000)]})
-					} else {
-						run.Inconclusive("re-entrancy scenario timed out without a lock cycle in the dump: " + sig)
-					}
-					run.Finish()
-					t.Fatalf("hang in %s", sig)
 				}
 			}
 		}
